@@ -261,7 +261,26 @@ def run(pid, tier="quick", replay=None):
     mism, errors = [], []
     if pairs and not any(p["kind"] in ("translator",) for p in ctx.problems) and \
             os.path.exists(os.path.join(coqrun.COQ, mod.RUN_MODULE.replace(".", "/") + ".vo")):
-        mism, errors = coqrun.eval_cases_vm(mod.RUN_MODULE, pairs, ctx.work)
+        # bulk evaluation by the extracted OCaml model when it is available (VERIF_MODEL=vm forces vm_compute for
+        # everything); a sample is always evaluated by vm_compute inside coqc, which also validates extraction + driver
+        runner_bin = None if os.environ.get("VERIF_MODEL") == "vm" else coqrun.ensure_runner(pid, mod.RUN_MODULE)
+        vm_budget = int(os.environ.get("VERIF_VM_SAMPLE", "600" if tier == "quick" else "2000"))
+        if runner_bin and len(pairs) > vm_budget:
+            mism, errors = coqrun.eval_cases_ml(runner_bin, pairs)
+            step_ = max(1, len(pairs) // vm_budget)
+            idxs = sorted(set(list(range(0, len(pairs), step_))[:vm_budget] + mism[:50]))
+            m2, e2 = coqrun.eval_cases_vm(mod.RUN_MODULE, [pairs[i] for i in idxs], ctx.work)
+            vm_mism = sorted(idxs[j] for j in m2)
+            errors = list(errors) + list(e2)
+            disagree = sorted(set(vm_mism) ^ (set(mism) & set(idxs)))
+            if disagree:
+                ctx.problems.append(dict(kind="correspondence",
+                                         detail=f"extracted runner and vm_compute disagree on {len(disagree)} sampled cases "
+                                                f"(extraction/driver fault)", input=sx.to_text(pairs[disagree[0]][0])))
+            cov["model_eval"] = dict(ocaml_extracted=len(pairs), vm_compute_sample=len(idxs))
+        else:
+            mism, errors = coqrun.eval_cases_vm(mod.RUN_MODULE, pairs, ctx.work)
+            cov["model_eval"] = dict(ocaml_extracted=0, vm_compute_sample=len(pairs))
     elif pairs:
         ctx.problems.append(dict(kind="correspondence", detail="model could not be built; correspondence not evaluated"))
     for idx, err in errors:
@@ -361,7 +380,10 @@ def run(pid, tier="quick", replay=None):
         "Coq 8.16.1 kernel (coqc; vm_compute used for case evaluation and finite-table lemmas; native_compute not used)",
         "axioms per Print Assumptions: " + (", ".join(cov.get("axioms_reported", [])) or "none (Closed under the global context)"),
         "Python harness harness/%s.py + harness/common (drives /repo/src, canonicalises observables)" % pid.lower(),
-        "correspondence by execution: model (vm_compute) vs implementation on the cases counted here",
+        "correspondence by execution: model vs implementation on the cases counted here; model evaluated by vm_compute "
+        "inside coqc and, for volume, by the OCaml extraction (Require Extraction + ExtrOcamlBasic only, no Extract "
+        "Constant/Inductive of our own; nat/N/Z/positive stay inductive) with coq/Extract/driver.ml (sx text parser/printer), "
+        "cross-checked against vm_compute on a sample every run",
     ] + list(getattr(mod, "TRUSTED", []))
     cov.setdefault("obligations", 1)
     cov.setdefault("discharged", 0)
